@@ -165,6 +165,31 @@ def _bn(func, args, kwargs):
 
 ops.HANDLERS["batch_norm"] = _bn
 
+_orig_ln = ops.HANDLERS.get("layer_norm")
+
+
+def _ln(func, args, kwargs):
+    x = args[0]
+    if not (isinstance(x, Sym) and has_dep(P(x))):
+        return _orig_ln(func, args, kwargs)
+    # per-item statistics over the normalised (trailing) dimensions: every unit of an item receives the dependencies of ALL of them
+    nshape = tuple(ops.getarg(args, kwargs, 1, "normalized_shape"))
+    p = P(x)
+    k = len(nshape)
+    out = np.empty(p.shape, dtype=object)
+    for idx in np.ndindex(*p.shape[:p.ndim - k]):
+        flat = list(np.asarray(p[idx], dtype=object).reshape(-1))
+        col = as_dep(flat[0])
+        for v in flat[1:]:
+            col = d_add(col, v)
+        for j in np.ndindex(*nshape):
+            out[idx + j] = d_un(col)
+    return Sym.make(out, x.dtype)
+
+
+if _orig_ln is not None:
+    ops.HANDLERS["layer_norm"] = _ln
+
 
 def dep_input(B, D):
     a = np.empty((B, D), dtype=object)
